@@ -119,6 +119,15 @@ CHECKS = {
          "k-1 shares). Every k-subset in every order (P(6,k) orders), supersets, (k-1)-subsets, 216 k duplicate-index lists; multiplication on all 128x128 "
          "basis monomial pairs pins the reduction polynomial, associativity/distributivity on all 14^3 triples, all inverses.",
          "Trusted: mc/ref/gf128.py. Secrets and coefficients outside the element alphabet are not covered.", "DESIGN.md 3/C20"),
+ "C06": ("exploration",
+         "bounded exhaustive enumeration of point pairs, scalars and in-place operator histories on all nine curves against affine reference arithmetic on Python ints; all key-agreement role subsets",
+         "Per curve a 19-28 point alphabet (neutral, generator from the registry and freshly constructed, generator reached by arithmetic with z != 1, small and "
+         "seeded multiples, all torsion points of the Edwards curves, the point with x = 0 where it exists): all ordered pairs for + += == !=, every point for "
+         "negation/doubling/copy/xy/is_point_at_infinity, 36-41 boundary scalars (0, n-1, n, n+1, 2n, 2^bits, 2^(bits+9)+5, window patterns ...) x every point in "
+         "four operator forms with the blinding seed owned through a seam, in-place operator histories to depth 2-4 with prefix replay, EccXPoint over every "
+         "low-order u and its aliases, all 16 key_agreement argument subsets from both parties' view, RFC 7748 iterated vectors.",
+         "Trusted: mc/ref/ec.py (curve constants self-validated at import; Wycheproof-checked) and the exact affine Montgomery arithmetic in mc/props/_c06_ref.py.",
+         "DESIGN.md 3/C06"),
 }
 NOT_YET = "check not built yet (work in progress in this session; see DESIGN.md section 3 for the planned bounded-exhaustive check)"
 man = {
